@@ -7,11 +7,19 @@
 #ifndef PREC
 #define PREC 2
 #endif
+#ifdef PREC_SYM      /* boundary-value harness: concrete v (CX_V), every precision 0..9 */
+static int g_prec;
+#undef PREC
+#define PREC g_prec
+#endif
 typedef unsigned __int128 u128;
 double cx_v; uint8_t cx_text[24]; uint64_t cx_n; int32_t cx_prec = PREC;
 int main(void)
 {
   double v = nondet_double(); int neg = 0;
+#ifdef PREC_SYM
+  g_prec = nondet_i32(); VF_ASSUME(g_prec >= 0 && g_prec <= 9); cx_prec = g_prec;
+#endif
 #ifdef KF_EBAND        /* known finding: values in (2^31-1, 2^31) are printed in exponent notation */
   VF_ASSUME(v == v && v >= -2147483647.0 && v <= 2147483647.0);
 #else
@@ -20,7 +28,7 @@ int main(void)
 #ifdef VPOS
   VF_ASSUME(v >= 0);
 #endif
-#ifdef CX_V            /* reachability twin: one concrete input keeps the cover query cheap */
+#ifdef CX_V            /* reachability twin / boundary-value harness: one concrete input */
   v = CX_V;
 #endif
   cx_v = v;
